@@ -364,18 +364,46 @@ impl Runner {
     fn exec_inner(&mut self, op: &Op) -> String {
         match op.clone() {
             Op::CreateCa { inst, name, parent_inst, parent, res } => {
-                self.exec_create(inst, &name, parent_inst, &parent, res)
+                if parent == "ta" && inst != parent_inst {
+                    return "skip:remote_ta".into()
+                }
+                // The operator's set-up exchanges (RFC 8183 files, the
+                // connection tests) are not subjected to network faults;
+                // everything after them is.
+                crate::net::set_quiet(true);
+                let res = self.exec_create(
+                    inst, &name, parent_inst, &parent, res
+                );
+                crate::net::set_quiet(false);
+                res
             }
             Op::AddParent { inst, name, parent_inst, parent, res } => {
                 if self.model.ca(inst, &name).is_none() {
                     return "skip:no_ca".into()
                 }
-                self.exec_add_parent(inst, &name, parent_inst, &parent, res)
+                if parent == "ta" && inst != parent_inst {
+                    return "skip:remote_ta".into()
+                }
+                crate::net::set_quiet(true);
+                let res = self.exec_add_parent(
+                    inst, &name, parent_inst, &parent, res
+                );
+                crate::net::set_quiet(false);
+                res
             }
             Op::RemoveParent { inst, name, parent } => {
                 self.exec_remove_parent(inst, &name, &parent)
             }
-            Op::DeleteCa { inst, name } => self.exec_delete(inst, &name),
+            Op::DeleteCa { inst, name } => {
+                // Deleting a CA revokes and withdraws "best effort": what a
+                // lost request leaves behind is recorded as a known finding
+                // under C08 (delete_ca_best_effort_step_failed); here the
+                // tear-down is not subjected to network faults.
+                crate::net::set_quiet(true);
+                let res = self.exec_delete(inst, &name);
+                crate::net::set_quiet(false);
+                res
+            }
             Op::ChildResources { inst, parent, child, res } => {
                 self.exec_child_resources(inst, &parent, &child, res)
             }
@@ -903,6 +931,9 @@ impl Runner {
                     c.suspended = suspend;
                     if suspend { c.was_suspended = true; }
                 }
+            }
+            if !suspend {
+                crate::c02::note_unsuspended(self, parent, child);
             }
         }
         Self::label(&result)
